@@ -64,55 +64,70 @@ Proof.
 Qed.
 
 Section C12.
-Context {T : Type} (N : Num T) (P : prog T) (A : list (list T) -> res (list T)).
-
-Definition gfn_nodes (ts : list tid) : list nid := somes (map (p_gfn P) ts).
+Context {T : Type} (N : Num T) (P : prog T) (E : egraph) (A : list (list T) -> res (list T)).
 
 (* the graph is finite: all grad_fn nodes and all their descendants lie in a duplicate-free list
    no longer than the declared node count *)
 Definition graph_closed (nodes : list nid) : Prop :=
   NoDup nodes /\ length nodes <= p_nnodes P /\
   (forall t r, p_gfn P t = Some r -> In r nodes) /\
-  (forall n c, In n nodes -> In (Some c) (p_next P n) -> In c nodes).
+  (forall n c k, In n nodes -> In (Some (c, k)) (e_next E n) -> In c nodes).
 
-(* what the discovered set is: exactly the variables of the AccumulateGrad nodes reachable from
-   the grad_fn of some tensor along a path that avoids the grad_fn nodes of the excluded tensors *)
+(* excluding one output of a multi-output node does not exclude its siblings: an edge is excluded
+   iff it is the gradient edge of an excluded tensor *)
+Lemma tensor_edges_In : forall ts n k,
+  In (n, k) (tensor_edges P E ts) <-> exists t, In t ts /\ p_gfn P t = Some n /\ e_onr E t = k.
+Proof.
+  intros ts n k. unfold tensor_edges. rewrite in_flat_map. split.
+  - intros [t [Ht Hi]]. exists t. split; [exact Ht|].
+    destruct (p_gfn P t) as [m|].
+    + destruct Hi as [Hi|[]]. injection Hi as Hm Hk. subst m. split; [reflexivity | exact Hk].
+    + destruct Hi.
+  - intros [t [Ht [Hg Hk]]]. exists t. split; [exact Ht|]. rewrite Hg. subst k.
+    left. reflexivity.
+Qed.
+
+(* the discovered set: the variables of the AccumulateGrad nodes reachable from the gradient edge of
+   some tensor along a path that uses none of the gradient edges of the excluded tensors *)
 Lemma get_leaf_tensors_ok : forall tensors excluded leaves,
-  get_leaf_tensors P tensors excluded = Ok leaves ->
+  get_leaf_tensors P E tensors excluded = Ok leaves ->
   (forall t, In t tensors -> p_gfn P t <> None) /\
   (forall t, In t excluded -> p_gfn P t <> None) /\
   NoDup leaves /\
   (forall t, In t leaves <->
      exists a o r, p_acc P a = Some t /\ In o tensors /\ p_gfn P o = Some r /\
-                   apath (p_next P) (gfn_nodes excluded) r a).
+                   ~ In (r, e_onr E o) (tensor_edges P E excluded) /\
+                   epath (e_next E) (tensor_edges P E excluded) r a).
 Proof.
   intros tensors excluded leaves H. unfold get_leaf_tensors in H.
   destruct (all_some (map (p_gfn P) tensors)) eqn:H1; cbn [negb] in H; [|discriminate H].
   destruct (all_some (map (p_gfn P) excluded)) eqn:H2; cbn [negb] in H; [|discriminate H].
-  destruct (descendant_accumulate_grads (p_next P) (p_acc P)
+  destruct (descendant_accumulate_grads (e_next E) (p_acc P)
               (S (p_nnodes P + length tensors))
-              (somes (map (p_gfn P) tensors)) (somes (map (p_gfn P) excluded)))
+              (tensor_edges P E tensors) (tensor_edges P E excluded))
     as [accs|] eqn:Hd; [|discriminate H].
   injection H as H. subst leaves.
-  pose proof (bfs_sound_complete (p_next P) (p_acc P) _ _ _ _ Hd) as Hsc.
+  pose proof (bfs_sound_complete (e_next E) (p_acc P) _ _ _ _ Hd) as Hsc.
   split; [|split; [|split]].
   - exact (proj1 (all_some_map_true (p_gfn P) tensors) H1).
   - exact (proj1 (all_some_map_true (p_gfn P) excluded) H2).
   - unfold dedup. apply NoDup_nodup.
-  - intros t. rewrite dedup_In. rewrite somes_map_In. unfold gfn_nodes. split.
-    + intros [a [Ha Hat]]. apply Hsc in Ha. destruct Ha as [_ [r [Hr Hp]]].
-      apply somes_map_In in Hr. destruct Hr as [o [Ho Hor]].
-      exists a, o, r. split; [exact Hat | split; [exact Ho | split; [exact Hor | exact Hp]]].
-    + intros [a [o [r [Hat [Ho [Hor Hp]]]]]]. exists a. split; [|exact Hat].
+  - intros t. rewrite dedup_In. rewrite somes_map_In. split.
+    + intros [a [Ha Hat]]. apply Hsc in Ha. destruct Ha as [_ [r [j [Hr [Hex Hp]]]]].
+      apply tensor_edges_In in Hr. destruct Hr as [o [Ho [Hor Hj]]]. subst j.
+      exists a, o, r.
+      split; [exact Hat | split; [exact Ho | split; [exact Hor | split; [exact Hex | exact Hp]]]].
+    + intros [a [o [r [Hat [Ho [Hor [Hex Hp]]]]]]]. exists a. split; [|exact Hat].
       apply Hsc. split.
       * rewrite Hat. discriminate.
-      * exists r. split; [|exact Hp]. apply somes_map_In. exists o. split; assumption.
+      * exists r, (e_onr E o). split; [|split; [exact Hex | exact Hp]].
+        apply tensor_edges_In. exists o. split; [exact Ho | split; [exact Hor | reflexivity]].
 Qed.
 
 (* the two rejections: a tensor (or an excluded tensor) without grad_fn *)
 Lemma get_leaf_tensors_rejects : forall tensors excluded,
   (exists t, In t (tensors ++ excluded) /\ p_gfn P t = None) ->
-  get_leaf_tensors P tensors excluded = Err ValueError.
+  get_leaf_tensors P E tensors excluded = Err ValueError.
 Proof.
   intros tensors excluded [t [Ht Hg]]. unfold get_leaf_tensors.
   apply in_app_or in Ht. destruct Ht as [Ht|Ht].
@@ -126,7 +141,7 @@ Qed.
 Lemma get_leaf_tensors_total : forall nodes tensors excluded,
   graph_closed nodes ->
   (forall t, In t (tensors ++ excluded) -> p_gfn P t <> None) ->
-  exists leaves, get_leaf_tensors P tensors excluded = Ok leaves.
+  exists leaves, get_leaf_tensors P E tensors excluded = Ok leaves.
 Proof.
   intros nodes tensors excluded (Hnd & Hlen & Hroots & Hcl) Hall.
   unfold get_leaf_tensors.
@@ -135,25 +150,24 @@ Proof.
   assert (H2 : all_some (map (p_gfn P) excluded) = true).
   { apply all_some_map_true. intros t Ht. apply Hall. apply in_or_app. right. exact Ht. }
   rewrite H1, H2. cbn [negb].
-  destruct (descendant_accumulate_grads (p_next P) (p_acc P)
+  destruct (descendant_accumulate_grads (e_next E) (p_acc P)
               (S (p_nnodes P + length tensors))
-              (somes (map (p_gfn P) tensors)) (somes (map (p_gfn P) excluded)))
+              (tensor_edges P E tensors) (tensor_edges P E excluded))
     as [accs|] eqn:Hd.
   - eexists. reflexivity.
   - exfalso. revert Hd.
-    apply (bfs_fuel_suffices (p_next P) (p_acc P) nodes).
+    apply (bfs_fuel_suffices (e_next E) (p_acc P) nodes).
     + exact Hnd.
-    + intros r Hr. apply somes_map_In in Hr. destruct Hr as [o [_ Hor]].
+    + intros r k Hr. apply tensor_edges_In in Hr. destruct Hr as [o [_ [Hor _]]].
       exact (Hroots o r Hor).
     + exact Hcl.
-    + pose proof (somes_length (map (p_gfn P) tensors)) as Hs.
-      rewrite map_length in Hs. lia.
+    + lia.
 Qed.
 
 (* backward without `inputs` IS the explicit call on the discovered leaves *)
 Lemma backward_default_is_explicit : forall sigma tensors k retain s leaves,
-  get_leaf_tensors P tensors [] = Ok leaves ->
-  backward_default N P A sigma tensors k retain s
+  get_leaf_tensors P E tensors [] = Ok leaves ->
+  backward_default N P E A sigma tensors k retain s
   = backward_model N P A tensors (sigma leaves) k retain s.
 Proof.
   intros sigma tensors k retain s leaves H. unfold backward_default.
@@ -166,12 +180,12 @@ Qed.
 
 Lemma backward_default_rejects_leaf_output : forall sigma tensors k retain s,
   (exists t, In t tensors /\ p_gfn P t = None) ->
-  backward_default N P A sigma tensors k retain s = (Err ValueError, s).
+  backward_default N P E A sigma tensors k retain s = (Err ValueError, s).
 Proof.
   intros sigma tensors k retain s [t [Ht Hg]]. unfold backward_default.
   destruct (valid_chunk k) eqn:Hk; cbn [negb]; [|reflexivity].
   destruct tensors as [|t0 tensors]; [reflexivity|].
-  assert (He : get_leaf_tensors P (t0 :: tensors) [] = Err ValueError).
+  assert (He : get_leaf_tensors P E (t0 :: tensors) [] = Err ValueError).
   { apply get_leaf_tensors_rejects. exists t. split; [|exact Hg].
     apply in_or_app. left. exact Ht. }
   rewrite He. reflexivity.
@@ -179,9 +193,9 @@ Qed.
 
 (* the default task-parameter fold *)
 Lemma tasks_fold_ok : forall (sigma : list tid -> list tid) features losses ts,
-  Forall2 (fun loss l => get_leaf_tensors P [loss] features = Ok l) losses ts ->
+  Forall2 (fun loss l => get_leaf_tensors P E [loss] features = Ok l) losses ts ->
   fold_right (fun loss acc =>
-                rbind (get_leaf_tensors P [loss] features) (fun l =>
+                rbind (get_leaf_tensors P E [loss] features) (fun l =>
                 rbind acc (fun ls => Ok (sigma l :: ls))))
              (Ok []) losses
   = Ok (map sigma ts).
@@ -194,9 +208,9 @@ Qed.
 
 (* mtl_backward without shared_params / tasks_params IS the explicit call on the discovered sets *)
 Lemma mtl_default_is_explicit : forall sigma losses features k retain s sh ts,
-  get_leaf_tensors P features [] = Ok sh ->
-  Forall2 (fun loss l => get_leaf_tensors P [loss] features = Ok l) losses ts ->
-  mtl_backward_default N P A sigma losses features None None k retain s
+  get_leaf_tensors P E features [] = Ok sh ->
+  Forall2 (fun loss l => get_leaf_tensors P E [loss] features = Ok l) losses ts ->
+  mtl_backward_default N P E A sigma losses features None None k retain s
   = mtl_backward_model N P A losses features (map sigma ts) (sigma sh) k retain s.
 Proof.
   intros sigma losses features k retain s sh ts Hsh HF. unfold mtl_backward_default.
@@ -206,8 +220,8 @@ Proof.
 Qed.
 
 Lemma mtl_default_shared_only : forall sigma losses features tasks k retain s sh,
-  get_leaf_tensors P features [] = Ok sh ->
-  mtl_backward_default N P A sigma losses features (Some tasks) None k retain s
+  get_leaf_tensors P E features [] = Ok sh ->
+  mtl_backward_default N P E A sigma losses features (Some tasks) None k retain s
   = mtl_backward_model N P A losses features tasks (sigma sh) k retain s.
 Proof.
   intros sigma losses features tasks k retain s sh Hsh. unfold mtl_backward_default.
@@ -217,8 +231,8 @@ Proof.
 Qed.
 
 Lemma mtl_default_tasks_only : forall sigma losses features shared k retain s ts,
-  Forall2 (fun loss l => get_leaf_tensors P [loss] features = Ok l) losses ts ->
-  mtl_backward_default N P A sigma losses features None (Some shared) k retain s
+  Forall2 (fun loss l => get_leaf_tensors P E [loss] features = Ok l) losses ts ->
+  mtl_backward_default N P E A sigma losses features None (Some shared) k retain s
   = mtl_backward_model N P A losses features (map sigma ts) shared k retain s.
 Proof.
   intros sigma losses features shared k retain s ts HF. unfold mtl_backward_default.
